@@ -157,11 +157,20 @@ impl HardwareBreakpoint {
             .dr7
             .configure_bp(free_register, self.condition, self.size);
         state.dr7.set_dr(free_register, false, true);
-        tracee_ctl.tracee_iter().for_each(|t| {
-            if let Err(e) = state.sync(t.pid) {
-                error!("set hardware breakpoint for thread {}: {e}", t.pid)
+        let mut applied = false;
+        let mut failure = None;
+        tracee_ctl.tracee_iter().for_each(|t| match state.sync(t.pid) {
+            Ok(()) => applied = true,
+            Err(e) => {
+                error!("set hardware breakpoint for thread {}: {e}", t.pid);
+                failure.get_or_insert(e);
             }
         });
+        // the kernel took the registers for no thread at all (an address outside the user
+        // address space, for one): there is no such hardware breakpoint
+        if let (false, Some(e)) = (applied, failure) {
+            return Err(e);
+        }
         self.register = Some(free_register);
 
         Ok(state)
